@@ -268,4 +268,59 @@ theorem rejects_mono {g g' : Graph} (hsub : ∀ e, e ∈ g → e ∈ g') (h : re
     rw [h] at this
     cases this
 
+
+/-! ### a stratification exists when no negative edge lies on a cycle -/
+
+theorem filter_length_le_of_imp {α} (p q : α → Bool) : ∀ (l : List α), (∀ x, x ∈ l → p x = true → q x = true) →
+    (l.filter p).length ≤ (l.filter q).length
+  | [], _ => Nat.le_refl _
+  | a :: as, h => by
+    have ih := filter_length_le_of_imp p q as (fun x hx => h x (List.mem_cons_of_mem _ hx))
+    simp only [List.filter_cons]
+    cases hp : p a with
+    | false =>
+      cases hq : q a with
+      | false => simpa using ih
+      | true => simp only [Bool.false_eq_true, if_false, if_true, List.length_cons]; omega
+    | true =>
+      have hq := h a (List.mem_cons_self ..) hp
+      simp only [hq, if_true, List.length_cons]
+      omega
+
+theorem filter_length_lt_of_witness {α} (p q : α → Bool) : ∀ (l : List α), (∀ x, x ∈ l → p x = true → q x = true) →
+    (∃ a, a ∈ l ∧ q a = true ∧ p a = false) → (l.filter p).length < (l.filter q).length
+  | [], _, ⟨a, ha, _⟩ => by cases ha
+  | b :: bs, h, ⟨a, ha, hqa, hpa⟩ => by
+    have hle := filter_length_le_of_imp p q bs (fun x hx => h x (List.mem_cons_of_mem _ hx))
+    simp only [List.filter_cons]
+    rcases List.mem_cons.mp ha with rfl | ha'
+    · simp only [hpa, hqa, Bool.false_eq_true, if_false, if_true, List.length_cons]
+      omega
+    · have ih := filter_length_lt_of_witness p q bs (fun x hx => h x (List.mem_cons_of_mem _ hx)) ⟨a, ha', hqa, hpa⟩
+      cases hp : p b with
+      | false =>
+        cases hq : q b with
+        | false => simpa using ih
+        | true => simp only [Bool.false_eq_true, if_false, if_true, List.length_cons]; omega
+      | true =>
+        have hq := h b (List.mem_cons_self ..) hp
+        simp only [hq, if_true, List.length_cons]
+        omega
+
+/-- stratum of a relation: the number of relations it (transitively) depends on, itself included. -/
+def rankOf (g : Graph) (v : Nat) : Nat := ((nodesOf g).filter (fun u => reachB (tc g) v u)).length
+
+theorem rankOf_stratifies (g : Graph) (h : ¬ NegCycle g) : IsStratification g (rankOf g) := by
+  intro e he
+  have himp : ∀ x, x ∈ nodesOf g → reachB (tc g) e.dst x = true → reachB (tc g) e.src x = true := by
+    intro x _ hx
+    exact reachB_iff.mpr (Reach.step e x he (reachB_iff.mp hx))
+  refine ⟨filter_length_le_of_imp _ _ _ himp, ?_⟩
+  intro hn
+  apply filter_length_lt_of_witness _ _ _ himp
+  refine ⟨e.src, mem_nodesOf.mpr ⟨e, he, Or.inl rfl⟩, reachB_iff.mpr (Reach.refl _), ?_⟩
+  cases hr : reachB (tc g) e.dst e.src with
+  | false => rfl
+  | true => exact absurd ⟨e, he, hn, reachB_iff.mp hr⟩ h
+
 end ILV.Strat
